@@ -172,6 +172,17 @@ func run(r *vt.Run, t vt.TB, s spec) {
 		ops = append(ops, op{name: "SelectDone(w)", high: true, run: func(cb func(string) bool) error {
 			return hl.SelectDone("w", func(row sqlittle.Row) bool { return cb(render(0, row)) }, w.Spec.ColNames()...)
 		}})
+		for name, bi := range w.Indexes {
+			ix, err := d.Index(name)
+			if err != nil {
+				fail("open", "Index(%s): %v", name, err)
+				return
+			}
+			addIndexOps(name, ix, bi.Entries, bi.Key)
+			if bi.Shape.Depth > maxDepth {
+				maxDepth = bi.Shape.Depth
+			}
+		}
 		if w.IShape.Depth > maxDepth {
 			maxDepth = w.IShape.Depth
 		}
